@@ -42,6 +42,12 @@ Proof.
   destruct (gate_ok ps); [reflexivity | exfalso; apply H; reflexivity].
 Qed.
 
+(** expand_env is modelled as the code is written -- a first loop with a hand-counted index over ALL tokens
+    (quoted ones are counted, not filtered out) pushing (index, new text), then a write-back by index in
+    reverse -- and PROVED to be the per-token map: each text lands on the token it was computed from. *)
+Theorem C10_index_buffer : forall W toks, expand_env W toks = map (expand_env_tok W) toks.
+Proof. exact expand_env_map. Qed.
+
 (** A whole line of words (tag, segment list): quoted ones unchanged, the others substituted, each
     in its place. *)
 Theorem C10_line : forall W ws, Forall word_in ws -> expand_env W (map word_text ws) = map (word_den W) ws.
@@ -103,6 +109,7 @@ Print Assumptions C10_scan.
 Print Assumptions C10_refuted.
 Print Assumptions C10_refuted_exemption.
 Print Assumptions C10_partial.
+Print Assumptions C10_index_buffer.
 Print Assumptions C10_line.
 Print Assumptions C10_single_quoted.
 Print Assumptions C10_single_quoted_in_line.
